@@ -2,6 +2,7 @@
 import ast
 
 from .. import rx, strlang, cfg
+from .. import paths
 from ..core import AnalysisError, norm, walk_no_nested
 from ..strlang import Cat, Lit, Slot, Star
 from .deb822model import Model, KEY_RE
@@ -90,48 +91,50 @@ def check_lines(rep, M, site, label, Tm, Te, groups, universal, has_first, where
     alpha = M.alpha
     # ---- first line through the cascade
     l0m = rx.strip_lang(rx.lines_of(Tm, 'first', universal), '\r\n')
-    remaining_m = l0m
     for br in M.cascade:
-        pat, fl = M.rx[br['name']]
-        L = M.L(br['name'], br['mode'])
-        hit_m = remaining_m.intersect(rx.lift(L, l0m.markers))
+        R = M.region_lang(br)
+        hit_m = l0m.intersect(rx.lift(R, l0m.markers))
         hit_e = rx.erase_markers(hit_m)
-        remaining_m = remaining_m.intersect(rx.lift(L.complement(), l0m.markers))
         if hit_e.is_empty():
             continue
         what = '%s: first line → branch %s' % (label, br['name'])
+        if br['kind'] == 'skip':
+            rep.fail(rule, site, label + ': first line is read', 'the dumped first line %r matches none of the reader regexes (field silently lost)' % hit_e.witness(),
+                     detail={'witness': hit_e.witness()}, where=where)
+            continue
         if br['kind'] != 'field':
             rep.fail(rule, site, what, 'the dumped first line %r is taken by the continuation branch %s' % (hit_e.witness(), br['name']),
                      detail={'witness': hit_e.witness()}, where=where)
             continue
-        content = [s for s in walk_no_nested(br['block']) if isinstance(s, ast.Assign) and norm(s.targets[0]) == 'content']
-        ctext = norm(content[0].value) if content else None
-        reads_data = ctext is not None and 'group' in ctext
+        ckind = br['content'][0]
+        ctext = br['content'][1] if ckind != 'group' else 'group %s of %s' % (br['content'][2], br['content'][1])
+        reads_data = ckind == 'group'
+        if br['key'][1] != 'key':
+            rep.fail(rule, site, what, 'branch %s takes the field name from group %r' % (br['name'], br['key'][1]), where=where)
+            continue
         if has_first and not reads_data:
-            rep.fail(rule, site, what, 'first line %r with text is read by branch %s which stores %s as the value'
+            rep.fail(rule, site, what, 'first line %r with text is read by branch %s which stores %r as the value'
                      % (hit_e.witness(), br['name'], ctext), where=where)
             continue
         if not has_first and reads_data:
             rep.fail(rule, site, what, 'first line %r without text is read by the data-capturing branch %s' % (hit_e.witness(), br['name']),
                      where=where)
             continue
-        if not has_first and ctext not in ("''", '""'):
+        if not has_first and br['content'] != ('const', ''):
             rep.fail(rule, site, what, 'branch %s stores %s instead of the empty first line' % (br['name'], ctext), where=where)
             continue
+        if reads_data and (br['content'][1] != br['key'][0] or br['content'][2] != 'data'):
+            rep.fail(rule, site, what, 'branch %s takes the value from %s' % (br['name'], ctext), where=where)
+            continue
+        pat, fl = M.rx[br['key'][0]]
         rg = {'key': 'key', 'data': 'data'}
         w1, w2 = rx.agreement(pat, fl, br['mode'], hit_m, hit_e, groups, {g: rg[g] for g in groups}, alpha)
         if w1 is not None or w2 is not None:
             rep.fail(rule, site, what, 'reader groups do not coincide with what was written: %r' % (w2 if w2 is not None else w1),
                      detail={'witness': w2 or w1}, where=where)
         else:
-            rep.ok(rule, site, what, 'all parses of %s put %s on the written slots' % (br['name'], '/'.join(groups)))
-    rem = rx.erase_markers(remaining_m)
-    what = '%s: first line is read' % label
-    if not rem.is_empty():
-        rep.fail(rule, site, what, 'the dumped first line %r matches none of the reader regexes (field silently lost)' % rem.witness(),
-                 detail={'witness': rem.witness()}, where=where)
-    else:
-        rep.ok(rule, site, what, 'FirstLine(T) is consumed by the field branches')
+            rep.ok(rule, site, what, 'all parses of %s put %s on the written slots' % (br['key'][0], '/'.join(groups)))
+    rep.ok(rule, site, '%s: first line is read' % label, 'FirstLine(T) is classified by the line classes of the reader', nontrivial=False)
     l0 = rx.erase_markers(l0m)
     raw0 = rx.erase_markers(rx.lines_of(Tm, 'first', universal))
     hazards(rep, M, rule, site, label + ': first line', l0, raw0, where)
@@ -146,30 +149,21 @@ def check_lines(rep, M, site, label, Tm, Te, groups, universal, has_first, where
         rep.fail(rule, site, what, 'strip() alters a continuation line: %r' % (w,), where=where)
     else:
         rep.ok(rule, site, what, 'strip(\\r\\n) is the identity on the continuation lines')
-    remaining = rest
     for br in M.cascade:
-        L = M.L(br['name'], br['mode'])
-        hit = remaining.intersect(L)
-        remaining = remaining.minus(L)
+        hit = rest.intersect(M.region_lang(br))
         if hit.is_empty():
             continue
         what = '%s: continuation line → branch %s' % (label, br['name'])
-        if br['kind'] == 'field':
+        if br['kind'] == 'skip':
+            rep.fail(rule, site, label + ': continuation lines are read', 'continuation line %r matches none of the reader regexes (text silently lost)' % hit.witness(),
+                     detail={'witness': hit.witness()}, where=where)
+        elif br['kind'] != 'cont':
             rep.fail(rule, site, what, 'continuation line %r is read as a new field by %s' % (hit.witness(), br['name']),
                      detail={'witness': hit.witness()}, where=where)
+        elif br['verbatim']:
+            rep.ok(rule, site, what, "content += '\\n' + line (verbatim)")
         else:
-            app = [s for s in walk_no_nested(br['block']) if isinstance(s, ast.AugAssign) and norm(s.target) == 'content']
-            if len(app) == 1 and norm(app[0].value) in ("'\\n' + %s" % M.linevar,):
-                rep.ok(rule, site, what, "content += '\\n' + line (verbatim)")
-            else:
-                rep.fail(rule, site, what, 'the continuation branch does not append the line verbatim after a newline (%s)'
-                         % (norm(app[0]) if app else 'no append'), where=where)
-    what = '%s: continuation lines are read' % label
-    if not remaining.is_empty():
-        rep.fail(rule, site, what, 'continuation line %r matches none of the reader regexes (text silently lost)' % remaining.witness(),
-                 detail={'witness': remaining.witness()}, where=where)
-    else:
-        rep.ok(rule, site, what, 'RestLines(T) ⊆ continuation branch')
+            rep.fail(rule, site, what, 'the continuation branch does not append the line verbatim after a newline (%s)' % br['content'][1], where=where)
     hazards(rep, M, rule, site, label + ': continuation line', rest, raw, where)
 
 
@@ -190,8 +184,12 @@ def hazards(rep, M, rule, site, label, stripped, raw, where):
 def r2_normalisation(rep, src, M):
     f = M.parser_func
     loop = M.parser_loop
-    # loop iterates gpg_stripped_paragraph(_skip_useless_lines(sequence), strict)
+    # loop iterates gpg_stripped_paragraph(_skip_useless_lines(sequence), strict)  (possibly through a local)
     it = loop.iter
+    if isinstance(it, ast.Name):
+        defs = [s_ for s_ in walk_no_nested(M.parser_node) if isinstance(s_, ast.Assign) and len(s_.targets) == 1 and norm(s_.targets[0]) == it.id]
+        if len(defs) == 1:
+            it = defs[0].value
     ok = isinstance(it, ast.Call) and norm(it.func).endswith('.gpg_stripped_paragraph') and it.args \
         and isinstance(it.args[0], ast.Call) and norm(it.args[0].func).endswith('._skip_useless_lines')
     if ok:
@@ -199,14 +197,12 @@ def r2_normalisation(rep, src, M):
     else:
         rep.fail('C02.R3', f.site, 'comment skipping inside the PGP splitter',
                  'the line loop does not read gpg_stripped_paragraph(_skip_useless_lines(...)): %s' % norm(it)[:70], where=f.where)
-    # the cascade subject is decoder.decode(loop variable)
+    # the subject of every reader regex is decoder.decode(loop variable)
     lv = norm(loop.target)
-    dec = [s for s in loop.body if isinstance(s, ast.Assign) and norm(s.targets[0]) == M.linevar]
-    if len(dec) == 1 and isinstance(dec[0].value, ast.Call) and norm(dec[0].value.func).endswith('decoder.decode') \
-            and [norm(a) for a in dec[0].value.args] == [lv] and loop.body.index(dec[0]) < loop.body.index(M.cascade[0]['stmt']):
-        rep.ok('C02.R2', f.site, 'lines are decoded before matching', norm(dec[0]), nontrivial=False)
+    if M.linevar in ('self.decoder.decode(%s)' % lv,):
+        rep.ok('C02.R2', f.site, 'lines are decoded before matching', M.linevar, nontrivial=False)
     else:
-        rep.fail('C02.R2', f.site, 'lines are decoded before matching', 'the regex cascade is not applied to decoder.decode(<line>)', where=f.where)
+        rep.fail('C02.R2', f.site, 'lines are decoded before matching', 'the reader regexes are applied to %s, not to decoder.decode(<line>)' % M.linevar, where=f.where)
     # whole-text input is split into lines first
     for site in ('deb822:Deb822._internal_parser', 'deb822:Deb822.iter_paragraphs'):
         g = src.func(site)
@@ -297,42 +293,33 @@ def r3_twins(rep, src, M):
 
 def r4_accumulation(rep, src, M):
     f = M.parser_func
-    g = cfg.CFG(f.node)
     loop = M.parser_loop
-    # every match block ends in continue on all paths
-    for br in M.cascade:
-        blk = br['block']
-        tn = g.node_of[blk]
-        # successors on the True edge must not reach the next cascade statement without passing the loop head
-        body_first = [d for d, lab in g.succ[tn.id] if lab is True]
-        head = g.node_of[loop].id
-        later = [g.node_for(b['stmt']).id for b in M.cascade if b['stmt'].lineno > br['stmt'].lineno]
-        leak = any(g.exists_path(s, l, avoid=[head]) for s in body_first for l in later)
-        if leak:
-            rep.fail('C02.R4', f.site, 'branch %s is exclusive' % br['name'], 'a line handled by %s falls through to the next regex' % br['name'],
-                     where='%s:%d' % (f.module.relpath, blk.lineno))
+    for br in M.cascade + M.unwanted:
+        if br['kind'] not in ('field', 'unwanted'):
+            continue
+        what = 'branch %s%s flushes the previous field first' % (br['name'], ' (field filtered out)' if br['kind'] == 'unwanted' else '')
+        if br['flush_ok']:
+            rep.ok('C02.R4', f.site, what, 'a pending field is stored as self[curkey] = content before the key changes (all %d paths)' % len(br['paths']))
         else:
-            rep.ok('C02.R4', f.site, 'branch %s is exclusive' % br['name'], 'all paths of the block return to the loop head')
-        if br['kind'] == 'field':
-            # flush of the previous field precedes the new key
-            first = blk.body[0]
-            ok = isinstance(first, ast.If) and norm(first.test) == 'curkey' and len(first.body) == 1 and norm(first.body[0]) == 'self[curkey] = content'
-            keyas = [s for s in walk_no_nested(blk) if isinstance(s, ast.Assign) and norm(s.targets[0]) == 'curkey' and 'group' in norm(s.value)]
-            ok = ok and len(keyas) == 1 and norm(keyas[0].value) == "%s.group('key')" % br['mvar']
-            if ok:
-                rep.ok('C02.R4', f.site, 'branch %s flushes the previous field first' % br['name'], 'if curkey: self[curkey] = content', nontrivial=False)
-            else:
-                rep.fail('C02.R4', f.site, 'branch %s flushes the previous field first' % br['name'],
-                         'a new field line does not first store the pending field (or takes its key from elsewhere)',
-                         where='%s:%d' % (f.module.relpath, blk.lineno))
-    after = f.node.body[f.node.body.index(loop) + 1:]
-    ok = any(isinstance(s, ast.If) and norm(s.test) == 'curkey' and any(norm(b) == 'self[curkey] = content' for b in s.body) for s in after)
+            rep.fail('C02.R4', f.site, what, 'a new field line does not first store the pending field (or stores something else)', where=f.where)
+    for br in M.cascade:
+        if br['kind'] == 'other':
+            rep.fail('C02.R4', f.site, 'branch %s keeps the pending field' % br['name'], 'the pending field is changed in an unexpected way: %s' % (br['content'],), where=f.where)
+    # after the loop: a pending field is stored
+    body = M.parser_node.body
+    after = body[body.index(loop) + 1:]
+    ps = paths.Enumerator(paths.Folder()).run(after, [paths.Path()])
+    ok = bool(ps)
+    for p_ in ps:
+        pending = [pol for t, pol in p_.conds if norm(t) == 'curkey']
+        flushed = any(e[0] == 'store' and e[1] == 'self[curkey]' and norm(e[2]) == 'content' for e in p_.events)
+        if (not pending or pending[0]) and not flushed:
+            ok = False
     if ok:
-        rep.ok('C02.R4', f.site, 'final flush', 'if curkey: self[curkey] = content after the loop', nontrivial=False)
+        rep.ok('C02.R4', f.site, 'final flush', 'self[curkey] = content after the loop whenever a field is pending', nontrivial=False)
     else:
         rep.fail('C02.R4', f.site, 'final flush', 'the last field of a paragraph is never stored', where=f.where)
-    names = [b['name'] for b in M.cascade]
-    rep.extra['cascade'] = names
+    rep.extra['line_classes'] = ['%s → %s' % (' '.join(('' if pol else '¬') + n for n, _m, pol in b['lits']), b['kind']) for b in M.cascade]
 
 
 def check(src, rep, tier):
